@@ -27,13 +27,14 @@ RULE = (
     "after update_constraint on a live network/interface. Sub-check 'unconstrained': constraint-free "
     "networks accept everything and the three bundled schedulers complete a simulation on them. "
     "Every question is asked twice (after the other mode was asked, linear-first in half of the cases; in a quarter a lenient what-if query of the same shape comes first) and the InfrastructureInfo handed to the algorithm-side check must be unchanged afterwards. "
+    "Schedules also come with entries of both signs (phase-aware statement only), as whole numbers handed to the interface as Python ints for some stations next to float rows, and with columns that are permutations of each other (equal totals, different allocation). "
     "Non-trivial = the binding margin is within 3 tolerances (or 1e-6) of zero, or a mixed-sign row "
     "with non-zero phases is present; distinct by spec hash."
 )
 ASSUMPTIONS = [
     "the algorithm-side checker is given the same tolerances explicitly (its defaults are hard-coded)",
     "cases whose binding margin lies within 1e-10*(1+limit) of zero are not judged",
-    "schedules are non-negative",
+    "for schedules with negative entries only the phase-aware statement is judged (the linear relaxation is specified for non-negative schedules)",
 ]
 
 START = datetime(2020, 1, 1)
@@ -72,12 +73,22 @@ def _compare(spec, net, iface, constraints, rec, stage):
         i = ids.index(sid)
         if sid in spec["omit"] and not any(M[i]):
             continue
-        dict_sched[sid] = list(M[i])
+        vals = list(M[i])
+        if sid in spec.get("int_rows", ()):
+            # whole-number currents handed over as Python ints (mixed with float rows)
+            vals = [int(v) if float(v).is_integer() else v for v in vals]
+        dict_sched[sid] = vals
     info = iface.infrastructure_info()
     info_before = (np.array(info.constraint_matrix, dtype=float), np.array(info.constraint_limits, dtype=float), np.array(info.phases, dtype=float))
     got = {}
     labels = set()
     modes = (True, False) if spec.get("linear_first") else (False, True)
+    signed = bool((Mnp < 0).any())
+    if signed:
+        # a schedule that feeds current back: the phase-aware statement applies as it stands; the
+        # linear relaxation is only specified for non-negative schedules and is not judged
+        modes = (False,)
+        labels.add("signed_schedule")
     if spec.get("prior_lenient"):
         # an earlier what-if query with generous tolerances (same shape) must not colour later ones
         for linear in modes:
@@ -129,6 +140,8 @@ def _compare(spec, net, iface, constraints, rec, stage):
         }
         for who, r in again.items():
             require(r == want, "%s_%s_%s_when_asked_again" % (who, "linear" if linear else "phasor", "accepts_infeasible" if r else "rejects_feasible"), lambda: "%s: %s(linear=%r) answered %r the second time, definition says %r" % (stage, who, linear, r, want))
+    if signed:
+        return labels
     # the linear relaxation is conservative (on the definition and on every implementation)
     wl, rl, _ = got[True]
     wp, rp, _ = got[False]
@@ -165,6 +178,12 @@ def prop(spec, rec):
         labels.add("mixed_sign_with_phases")
     if len(spec["schedule"][0]) > 1:
         labels.add("multi_period")
+        cols = list(zip(*spec["schedule"]))
+        if any(a != b and abs(sum(a) - sum(b)) <= 1e-9 * (1 + abs(sum(a))) for a, b in zip(cols, cols[1:])):
+            labels.add("equal_total_columns")
+    ints = [sid for sid in spec.get("int_rows", ()) if sid not in spec["omit"] or any(spec["schedule"][ids.index(sid)])]
+    if ints and len(ints) < len(ids) and any(float(v).is_integer() for sid in ints for v in spec["schedule"][ids.index(sid)]) and any(not float(v).is_integer() for r in spec["schedule"] for v in r):
+        labels.add("int_and_float_rows")
     if spec["call_vtol"] is not None or spec["call_rtol"] is not None:
         labels.add("per_call_tolerance")
     if not spec["constraints"]:
@@ -226,8 +245,31 @@ def cases(draw):
     if not any(direction):
         direction[draw(st.integers(0, n - 1))] = 1.0
     fr = _frontier_scale(ns, direction, vt, rt, aim_linear) if ns["constraints"] else None
-    mode = draw(st.sampled_from(["boundary", "boundary", "boundary", "random"]))
-    if fr is None or mode == "random":
+    mode = draw(st.sampled_from(["boundary", "boundary", "boundary", "boundary", "random", "signed", "permuted", "whole"]))
+    if mode == "signed":
+        # currents of both signs (a station feeding back): cancellations inside |.| matter
+        sched = [[draw(st.one_of(st.just(0.0), st.floats(-64, 64).map(lambda x: round(x, 3)), st.sampled_from([12.0, -12.0, 32.0, -32.0]))) for _ in range(T)] for _ in range(n)]
+    elif mode == "whole":
+        # whole-number currents (handed to the interface as ints for some stations) next to
+        # fractional ones within a fraction of an ampere of a limit
+        sched = [[float(draw(st.integers(0, 40))) for _ in range(T)] for _ in range(n)]
+        k = draw(st.integers(0, n - 1))
+        for t in range(T):
+            sched[k][t] = round(draw(st.floats(0, 40)), 2)
+    elif fr is not None and mode == "permuted":
+        # every column is a permutation of the first (equal totals, different allocation); one of
+        # the later columns sits on the frontier
+        T = max(T, 2)
+        s0, j, g = fr
+        c = ns["constraints"][j]
+        tol = phasor.tolerance(c["limit"], vt, rt)
+        base = [s0 * direction[i] * draw(st.sampled_from([1.0, 0.5, 1.5])) for i in range(n)]
+        sched = [[0.0] * T for _ in range(n)]
+        for t in range(T):
+            perm = list(range(n)) if t == 0 else draw(st.permutations(range(n)))
+            for i in range(n):
+                sched[i][t] = base[perm[i]]
+    elif fr is None or mode in ("random", "permuted"):
         sched = [[draw(st.one_of(st.just(0.0), st.floats(0, 64).map(lambda x: round(x, 3)))) for _ in range(T)] for _ in range(n)]
     else:
         s0, j, g = fr
@@ -267,6 +309,7 @@ def cases(draw):
             "updates": updates,
             "linear_first": draw(st.booleans()),
             "prior_lenient": draw(st.integers(0, 3)) == 0,
+            "int_rows": draw(st.lists(st.sampled_from(ids), unique=True, max_size=n)),
         }
     )
     return spec
@@ -335,7 +378,7 @@ def subchecks(tier):
             prop,
             quick=3000,
             thorough=400000,
-            floors={"near_boundary": 0.209, "multi_period": 0.269, "near_boundary_linear": 0.08, "after_update": 0.1, "mixed_sign_with_phases": 0.178},
+            floors={"near_boundary": 0.209, "multi_period": 0.269, "near_boundary_linear": 0.08, "after_update": 0.1, "mixed_sign_with_phases": 0.178, "signed_schedule": 0.03, "equal_total_columns": 0.03, "int_and_float_rows": 0.08},
         ),
         Given("unconstrained", unconstrained_cases(), prop_unconstrained, quick=60, thorough=3000, jobs_quick=2),
     ]
